@@ -45,6 +45,7 @@ for p in $prop "$@"; do
   echo "  check $p quick: exit $rc  $inv"
   results="$results{\"check\":\"$p quick\",\"exit\":$rc,\"invariants\":\"$inv\"},"
 done
+cd /verif
 git -C /repo worktree remove --force "$ev" >/dev/null 2>&1
 python3 - "$out/meta.json" "$name" "$prop" "$valid" "$suite_with" "$demo_with" "$demo_without" "$demodir" "[${results%,}]" <<'PY'
 import json, sys
